@@ -69,6 +69,13 @@ fn main() {
         println!("run={} cmd={} target={} out", run_no, command, target_s);
         eprintln!("run={} cmd={} target={} err", run_no, command, target_s);
     }
+    if ins["detach_output"].as_bool() == Some(true) {
+        // daemon-style: close both output pipes now, keep running (the parent sees end of stream long before exit)
+        unsafe {
+            let devnull = libc::open(b"/dev/null\0".as_ptr() as *const libc::c_char, libc::O_WRONLY);
+            if devnull >= 0 { libc::dup2(devnull, 1); libc::dup2(devnull, 2); libc::close(devnull); }
+        }
+    }
     if let Some(ms) = ins["sleep_ms"].as_u64() { std::thread::sleep(std::time::Duration::from_millis(ms)); }
     let end = now_ns();
     let mut rec = base.clone();
